@@ -206,6 +206,8 @@ def _directed(variant: int, seed: int, tier: str) -> dict:  # noqa: PLR0915
     b.astore(0, "r3", [["u", 31]], tok="other_id"); pause()
     b.astore(0, "r3", [["u", 32]], tok="newest", src="peer"); pause()          # issued to my other address
     b.astore(0, "r3", [["u", 33]], tok="newest", src="unused"); pause()
+    b.astore(0, "r4", [["u", 34]], tok="newest", src="own_port"); pause()          # same node id, other port
+    b.astore(0, "r5", [["u", 35]], tok="newest", src="own_alias"); pause()         # same node id, masked ip bits differ
     b.astore(0, "r3", [["u", 34]], tok="sniff:1", src="client:1"); pause()     # client's address, my key
     b.astore(0, "r3", [["u", 35]], tok="sniff:1"); pause()                     # client's token from my address
     b.astore(0, "r3", [["u", 36]], tok="garbage"); pause()
@@ -265,7 +267,7 @@ VAL_KINDS = [["u", 1], ["u", 40], ["u", 169], ["u", 170], ["u", 171], ["s", 0, "
              ["latest", 0], ["big_u"], ["big_s", 0], ["many", 9], ["many", 8], ["many", 20], ["junk"], ["trunc", 0], ["empty"]]
 TOK_KINDS = ["newest", "newest", "newest", "fresh", "fresh", "oldest", "oldest", "other_node", "other_id", "sniff:0",
              "sniff:1", "garbage"]
-SRC_KINDS = ["own", "own", "own", "own", "peer", "unused", "client:0", "client:1"]
+SRC_KINDS = ["own", "own", "own", "own", "peer", "unused", "client:0", "client:1", "own_port", "own_alias"]
 
 
 def _net_case(seed: int, tier: str, mode: str) -> dict:  # noqa: C901, PLR0912, PLR0915
@@ -1117,6 +1119,16 @@ async def _run_net(c: Case, case: dict) -> dict:  # noqa: C901, PLR0912, PLR0915
             return hs.advs[1 - ai].address
         if spec == "unused":
             return unused_addr
+        if spec == "own_port":
+            # same machine, another port: the DHT node id ignores the port, the token must not
+            a = hs.advs[ai].address
+            return (a[0], a[1] + 1000)
+        if spec == "own_alias":
+            # an address that differs only in bits the node-id computation masks out (ip & 0x030f3fff)
+            a = hs.advs[ai].address
+            o = [int(x) for x in a[0].split(".")]
+            o[0] ^= 0x40
+            return (".".join(map(str, o)), a[1])
         if spec.startswith("client:"):
             return hs.honest[int(spec[7:]) % n].address
         return hs.advs[ai].address
